@@ -235,3 +235,12 @@ TEXT["C25"] = {
     "note": GW_NOTE + " Partial: outside the codec the absence of panics rests on the census (syntactic: assertions, index/slice expressions, panic/close) plus the recorded justifications and on the runs, not on a proof; nil dereferences and data races (e.g. a timer firing before its field is assigned) are covered by the runs only.",
     "technique": "Coq theorem (decode is the only crash outcome of a step; none reachable) + panic-site census regenerated from source + crash recording on all stateful differential runs",
 }
+
+TEXT["C06"] = {
+    "level": "Theorems C06_gateway_refuted / C06_client_refuted: the faithful models violate the property (store keyed by message ID "
+             "only); the witnesses are replayed on the real gateway (corpus) and client on every run and reported as known findings. A "
+             "monitor that tracks the exchanges of both directions by direction AND message ID, independently of the gateway's store, "
+             "runs on every implementation trace: a lost acknowledgement outside the recorded interference class is a violation.",
+    "note": GW_NOTE + " Partial: no positive theorem is proved (exchanges with disjoint live message IDs are covered by the correspondence only); the schedule part of the quantifier is outside the event-atomic models.",
+    "technique": "Coq refutation theorems with replayed witnesses + direction-aware exchange monitor on the implementation traces + differential execution",
+}
